@@ -310,6 +310,12 @@ class LRUCache(_CacheBase):
         if self._allow_cloudpickle and self.shared:
             value = cloudpickle.dumps(value)
         with self._cache_lock:
+            if key in self._cache_dict:
+                # A resident key: replace the value and mark it most recently used.
+                self._cache_dict[key] = value
+                self._cache_queue.remove(key)
+                self._cache_queue.append(key)
+                return
             self._cache_dict[key] = value
             cache_size = len(self._cache_queue)
             if cache_size < self.max_size:
